@@ -83,6 +83,8 @@ def _rules():
         "export": [
             lambda R, c, rid: c06.rule_b(R, c, rid),
             lambda R, c, rid: c06.rule_f(R, c, rid),
+            lambda R, c, rid: _as(R, c, rid, c06.rule_c, "C06.c"),
+            lambda R, c, rid: _as(R, c, rid, c02.rule_c, "C02.c"),
         ],
         "map-api": [
             lambda R, c, rid: shared.map_api(R, c, rid),
